@@ -1020,6 +1020,15 @@ impl SparqlDatabase {
     }
 
     pub fn parse_turtle(&mut self, turtle_data: &str) {
+        // A statement continues on the next line after `;` (same subject) or `,`
+        // (same subject and predicate), as generate_turtle writes predicate lists.
+        let mut subject_raw: Option<String> = None;
+        let mut predicate_raw: Option<String> = None;
+        let mut expect_subject = true;
+        let mut expect_predicate = false;
+        let mut expect_object = false;
+        let mut continued = false;
+
         for raw_line in turtle_data.lines() {
             let line = raw_line.trim();
 
@@ -1053,13 +1062,15 @@ impl SparqlDatabase {
             // Tokenize, but keep ; , . as delimiters only when outside URIs, literals, and quoted triples.
             let tokens = Self::tokenize_turtle_star_line(line);
 
-            let mut subject_raw: Option<String> = None;
-            let mut predicate_raw: Option<String> = None;
+            if !continued {
+                subject_raw = None;
+                predicate_raw = None;
+                expect_subject = true;
+                expect_predicate = false;
+                expect_object = false;
+            }
+            continued = matches!(tokens.last().map(String::as_str), Some(";") | Some(","));
             let mut object_tokens: Vec<String> = Vec::new();
-
-            let mut expect_subject = true;
-            let mut expect_predicate = false;
-            let mut expect_object = false;
 
             let flush_object = |this: &mut Self,
                                 subject_raw: &Option<String>,
